@@ -132,6 +132,16 @@ def _hw(fn):
     return [(ex, h) for ex in fn.exs for h in ex.of(HwAssign)]
 
 
+def combinational_only(ctx):
+    """The coders are purely combinational: output in the same cycle as the input."""
+    for cls in ("Encoder", "PriorityEncoder", "Decoder", "GrayEncoder", "GrayDecoder"):
+        fn = Fn(ctx.repo, CODING, f"{cls}.elaborate", "C38")
+        hs = _hw(fn)
+        wrong = [h for _, h in hs if h.domain != ("c", "comb")]
+        ctx.check(bool(hs) and not wrong, "C38.coder-combinational", wrong[0].site if wrong else fn.site, f"{cls}.domains", found=f"{len(hs)} assignment(s)" + (f"; {tstr(wrong[0].domain)} += {tstr(wrong[0].lhs)}" if wrong else ", all comb"),
+                  required="every assignment of the coder is combinational (m.d.comb)", nontrivial=False)
+
+
 def coding_tables(ctx):
     ctx.use(CODING)
     # Encoder: Case(1 << j): o = j ; Default: n = 1
@@ -255,6 +265,7 @@ def check(ctx):
     one_hot_mux_semantics(ctx)
     c38.one_hot_mux_alignment(ctx, "C38")
     coding_tables(ctx)
+    combinational_only(ctx)
     gray_code(ctx)
     from . import c38b
 
